@@ -511,7 +511,28 @@ class Bus (objects.DBusObject):
                         kwargs['args'] = []
                     kwargs['args'].append((int(k[3:]), value))
 
-        self.router.addMatch(caller.sendMessage, **kwargs)
+        rule_id = self.router.addMatch(caller.sendMessage, **kwargs)
+
+        # remembered per connection for RemoveMatch and for disconnection
+        caller.matchRules.add(rule_id)
+        if not hasattr(caller, 'matchRuleIds'):
+            caller.matchRuleIds = {}
+        caller.matchRuleIds.setdefault(rule, []).append(rule_id)
+
+    def dbus_RemoveMatch(self, rule, dbusCaller=None):
+        caller = self.clients[dbusCaller]
+
+        ids = getattr(caller, 'matchRuleIds', {}).get(rule, None)
+
+        if not ids:
+            raise DError(
+                'org.freedesktop.DBus.Error.MatchRuleNotFound',
+                'The given match rule wasn\'t found and can\'t be removed',
+            )
+
+        rule_id = ids.pop()
+        caller.matchRules.discard(rule_id)
+        self.router.delMatch(rule_id)
 
     def dbus_GetNameOwner(self, busName):
         if busName.startswith(':'):
